@@ -3,6 +3,7 @@ package sim
 import (
 	"context"
 	"fmt"
+	badger "github.com/dgraph-io/badger/v2"
 	"strconv"
 	"testing"
 )
@@ -21,7 +22,7 @@ func (f fcase) String() string {
 var faultSites = []string{
 	"lookup", "check", "isunlocked-error", "locked-unlock-error", "locked-no-passphrase", "sealed-account",
 	"rules-unknown", "rules-failed", "rules-denied", "rules-short", "rules-empty",
-	"store-fetch-error", "store-write-error", "store-write-error-behind-refused-entry", "record-wrong-length", "record-undecodable", "store-closed",
+	"store-fetch-error", "store-write-error", "store-write-error-behind-refused-entry", "record-wrong-length", "record-undecodable", "record-empty", "record-one-byte", "store-closed",
 	"sign-error", "domain-31-bytes", "domain-33-bytes", "data-31-bytes",
 	// every entry from the position to the end of the batch carries the same unusable input
 	"domain-31-bytes-run", "data-31-bytes-run",
@@ -32,7 +33,7 @@ var faultSites = []string{
 func siteApplies(site, kind string, size int) bool {
 	slashable := kind == "att" || kind == "atts" || kind == "prop"
 	switch site {
-	case "store-fetch-error", "store-write-error", "record-wrong-length", "record-undecodable", "store-closed":
+	case "store-fetch-error", "store-write-error", "record-wrong-length", "record-undecodable", "record-empty", "record-one-byte", "store-closed":
 		return slashable
 	case "rules-short", "rules-empty", "store-write-error-behind-refused-entry":
 		return kind == "atts" && size >= 2
@@ -179,6 +180,18 @@ func runFaultMatrix(t *testing.T, rc *RunCtx) {
 		w.s.Direct(func() {
 			_ = w.inst.Rules.VerifStore().Store(context.Background(), storeKey(pop.Accts[e.Acct].PubKey, action), []byte{0x7f, 0xff, 0x81, 0x03, 0x01, 0x01})
 		})
+	case "record-empty", "record-one-byte":
+		// A record that is present but holds nothing (or a lone version byte): written behind the store's own
+		// checks, as a truncation would leave it.
+		val := []byte{}
+		if fc.Site == "record-one-byte" {
+			val = []byte{0x01}
+		}
+		w.s.Direct(func() {
+			_ = w.inst.Rules.VerifStore().VerifDB().Update(func(txn *badger.Txn) error {
+				return txn.Set(storeKey(pop.Accts[e.Acct].PubKey, action), val)
+			})
+		})
 	case "store-closed":
 		w.s.Direct(func() { _ = w.inst.Rules.Close(context.Background()) })
 		w.inst.Closed = true
@@ -264,7 +277,7 @@ func runFaultMatrix(t *testing.T, rc *RunCtx) {
 	}
 	// Reach: the planned fault must actually have fired (except input-shaped faults).
 	switch fc.Site {
-	case "sealed-account", "record-wrong-length", "record-undecodable", "store-closed", "domain-31-bytes", "domain-33-bytes", "data-31-bytes", "domain-31-bytes-run", "data-31-bytes-run",
+	case "sealed-account", "record-wrong-length", "record-undecodable", "record-empty", "record-one-byte", "store-closed", "domain-31-bytes", "domain-33-bytes", "data-31-bytes", "domain-31-bytes-run", "data-31-bytes-run",
 		"data-31-domain-33-bytes", "data-28-domain-36-bytes", "data-33-domain-31-bytes":
 		rc.Stats.Inc("fault_input:"+fc.Site, 1)
 	default:
